@@ -73,6 +73,29 @@ def impl_iter_oneshot_parents(dag):
     return [ops.index(o) for o in p.values], [sorted(ops.index(q) for q in o.parents) for o in ops]
 
 
+def impl_iter_after_progress(dag):
+    """the pipeline is run to its end the way a one-operator-per-container scheduler does it -- asking the status for the ready operators before every step --
+    and iterated afterwards: the DAG is what it was"""
+    if REPO not in sys.path:
+        sys.path.insert(0, REPO)
+    from eudoxia.workload.pipeline import Pipeline
+    from eudoxia.workload import OperatorState as S
+    from eudoxia.workload.runtime_status import ASSIGNABLE_STATES
+    from eudoxia.utils import Priority
+    p = Pipeline("p", Priority.BATCH_PIPELINE)
+    ops = []
+    for par in dag:
+        ops.append(p.new_operator([ops[i] for i in par] if par else None))
+    rs = p.runtime_status()
+    for _ in range(len(dag) + 1):
+        ready = rs.get_ops(ASSIGNABLE_STATES, require_parents_complete=True)
+        rs.get_ops(ASSIGNABLE_STATES, require_parents_complete=False)
+        for op in ready[:1]:
+            for t in (S.ASSIGNED, S.RUNNING, S.COMPLETED):
+                op.transition(t)
+    return [ops.index(o) for o in p.values], [sorted(ops.index(q) for q in o.parents) for o in ops]
+
+
 def impl_iter_overlapping(dag):
     """two iterations of the same DAG alive at once: the first is advanced k steps, a second one is started and run to its end, then the first is
     finished; and two iterators advanced in lock-step (`zip`).  Each of them must still visit every operator exactly once, parents first"""
@@ -134,6 +157,11 @@ def check_dags(ctx, dags, drv, exhaustive_upto=None):
                 ctx.violations.append({"what": f"two iterations of the DAG {dag} alive at the same time disturb each other: one yields {a}, the other {b} "
                                                f"(an iteration alone: {order})", "layer": "W", "dag": dag, "sig": {"clause": "iteration-overlapping"}})
                 return
+        o5, pars5 = impl_iter_after_progress(dag)
+        if o5 != order or pars5 != [sorted(x) for x in dag]:
+            ctx.violations.append({"what": f"after the pipeline with the DAG {dag} has been run (ready operators asked for before every step) it iterates as {o5} "
+                                           f"(before: {order}) and records the parents {pars5}", "layer": "W", "dag": dag, "sig": {"clause": "iteration-after-run"}})
+            return
         o4, pars4 = impl_iter_oneshot_parents(dag)
         if o4 != order or pars4 != [sorted(x) for x in dag]:
             ctx.violations.append({"what": f"the DAG {dag} built from parents handed over as generators / filter / map / tuples iterates as {o4} (from lists: {order}) "
